@@ -4,6 +4,8 @@ from props import treelib as T
 
 ID = "C03"
 LEAN_MODULES = ["Ccp.Props.C03"]
+# bound of the escalated quick run (source fingerprint changed -> thorough generator): keeps that run near two minutes
+ESCALATE_MAX_CASES = 120000
 RULE = ("C01's generator biased to banner/macro bodies (indented, blank and deeper-indented body lines, delimiter lines that are "
         "themselves indented, nested starts, unterminated banners/macros), the vendor fixtures, x syntax x ignore_blank_lines x "
         "comment delimiters; every line's stored parent, stored child list and the seven derived views are dumped. "
